@@ -226,6 +226,29 @@ def script_for(rnd, plan, m, exports, shape, tsize, gtypes):
             emit('c %d %d' % (inst, plan.fk(nm)), 'global', inst)
     dump(0)
     dump(1)
+    if rnd.random() < 0.4:
+        # free one instance and instantiate it again (or a third one): the fresh instance starts from the specified initial state
+        # again, the surviving instance keeps its own state, objects handed out by the resolver stay usable (not freed with the instance)
+        victim = rnd.randint(0, 1)
+        fresh = rnd.choice([victim, 2])
+        emit('F %d' % victim, 'free', victim)
+        emit('I %d' % fresh, 'inst', fresh)
+        emit('t', 'starttrace', fresh)
+        dump(fresh)
+        dump(1 - victim)
+        for i in range(8):
+            inst = rnd.choice([fresh, 1 - victim])
+            g = [e for e in exports if e[0] == 'getg']
+            if setters and rnd.random() < 0.4:
+                kind, gi, nm = rnd.choice(setters)
+                emit('c %d %d %s' % (inst, plan.fk(nm), hex(setval(gi))), 'set', inst)
+            elif memk != 'none' and rnd.random() < 0.5:
+                emit('c %d %d %s %s' % (inst, plan.fk('poke'), hex(rnd.randint(0, 65535)), hex(rnd.getrandbits(8))), 'poke', inst)
+            else:
+                kind, gi, nm = rnd.choice(g)
+                emit('c %d %d' % (inst, plan.fk(nm)), 'global', inst)
+        dump(fresh)
+        dump(1 - victim)
     return '\n'.join(lines) + '\n', kinds
 
 
@@ -286,7 +309,11 @@ def main(chk):
                 script += extra
                 kinds += [('slotprobe', 0)] * len(slots) + [('slotprobe', 1)] * len(slots)
                 st, ref, _ = e2e.run_ref(b, plan, script, d)
-            for tag, cc, cflags in builds:
+            kbuilds = list(builds)
+            if k % 4 == 0:
+                # instance teardown and re-instantiation under ASan+UBSan (use after free / double free of instance-owned and imported objects)
+                kbuilds.append(('gcc-O1-asan', 'gcc', ['-O1', '-g', '-fsanitize=address,undefined', '-fno-sanitize-recover=all']))
+            for tag, cc, cflags in kbuilds:
                 outs[tag] = e2e.build_and_run(w2c2, b, plan, script, os.path.join(d, tag), cc=cc, cflags=cflags, opts=progs.opts_for(k))[:2]
         shutil.rmtree(d, ignore_errors=True)
         return k, shape, b, script, kinds, st, ref, outs
